@@ -13,6 +13,12 @@ Lib/Sweep.vos Lib/Sweep.vok Lib/Sweep.required_vos: Lib/Sweep.v
 Lib/Digest.vo Lib/Digest.glob Lib/Digest.v.beautified Lib/Digest.required_vo: Lib/Digest.v Lib/U63Ops.vo
 Lib/Digest.vio: Lib/Digest.v Lib/U63Ops.vio
 Lib/Digest.vos Lib/Digest.vok Lib/Digest.required_vos: Lib/Digest.v Lib/U63Ops.vos
+Lib/ZList.vo Lib/ZList.glob Lib/ZList.v.beautified Lib/ZList.required_vo: Lib/ZList.v 
+Lib/ZList.vio: Lib/ZList.v 
+Lib/ZList.vos Lib/ZList.vok Lib/ZList.required_vos: Lib/ZList.v 
 Props/MapProps.vo Props/MapProps.glob Props/MapProps.v.beautified Props/MapProps.required_vo: Props/MapProps.v Lib/U63Ops.vo Lib/Sweep.vo
 Props/MapProps.vio: Props/MapProps.v Lib/U63Ops.vio Lib/Sweep.vio
 Props/MapProps.vos Props/MapProps.vok Props/MapProps.required_vos: Props/MapProps.v Lib/U63Ops.vos Lib/Sweep.vos
+Props/ColorProps.vo Props/ColorProps.glob Props/ColorProps.v.beautified Props/ColorProps.required_vo: Props/ColorProps.v Lib/U63Ops.vo Lib/Sweep.vo
+Props/ColorProps.vio: Props/ColorProps.v Lib/U63Ops.vio Lib/Sweep.vio
+Props/ColorProps.vos Props/ColorProps.vok Props/ColorProps.required_vos: Props/ColorProps.v Lib/U63Ops.vos Lib/Sweep.vos
